@@ -250,7 +250,7 @@ func formatVerdict(t, s string) verdict {
 
 // ---------------------------------------------------------------- positions
 
-var c01Positions = []string{"root", "property", "item", "type-shortcut", "type-rule", "or-types", "or-rulesets", "type-of-type"}
+var c01Positions = []string{"root", "property", "item", "type-shortcut", "type-rule", "or-types", "or-rulesets", "type-of-type", "or-rulesets+other-inline-or"}
 
 func ann(rules []string) string {
 	if len(rules) == 0 {
@@ -310,6 +310,21 @@ func place(t tv, pos string) (*project, verdict) {
 			v = accept
 		}
 		return &project{Root: t.Lit + ` // {or: [` + rs + `, {type: "boolean"}]}`}, v
+	case "or-rulesets+other-inline-or":
+		// the same, next to registered but unreferenced types that carry inline `or`
+		// alternatives of their own (separately loaded schemas must not mix them up)
+		rs := ruleSetFor(t)
+		if rs == "" {
+			return nil, noClaim
+		}
+		v := self
+		if litKind(t.Lit) == "boolean" {
+			v = accept
+		}
+		return &project{Root: t.Lit + ` // {or: [` + rs + `, {type: "boolean"}]}`, Types: map[string]string{
+			"@x1": `1 // {or: [{type: "integer", min: -1000000}, {type: "float"}]}`,
+			"@x2": `"s" // {or: [{type: "string", minLength: 0}, {type: "null"}]}`,
+		}}, v
 	}
 	return nil, noClaim
 }
